@@ -5,7 +5,7 @@
    items, and that no mutating Scope method reaches a built-in module scope, is not proved; it is explored by the
    history runs (sequential and concurrent) against fresh-process baselines. *)
 From Coq Require Import String List Bool.
-From RV Require Import Gen.Statics Model.Statics Proofs.C05.
+From RV Require Import Gen.Statics Model.ScopeIsolation Proofs.C05Scopes Model.Statics Proofs.C05.
 Import ListNotations.
 
 (* adding / removing / retyping a static, a thread_local!, a dep_warn!, a use of fastrand, of the process id, the
@@ -45,6 +45,42 @@ Theorem C05_history_independent_partial : forall (V : Type) (init : nat -> V) sc
     /\ view V t (run V init sched2 ps s2) = map (solo_obs V init) (firstn n2 (nth_prog ps t)).
 Proof. exact history_independent. Qed.
 Print Assumptions C05_history_independent_partial.
+
+(* ---- built-in module scopes are never written (Model/ScopeIsolation.v) ---- *)
+
+(* the calls of (transitively) mutating Scope methods, the get_global_module calls and the mentions of ScopeRef::Builtin
+   in rsass/src are exactly the reviewed ones: a new call site re-opens the review *)
+Theorem C05_call_sites_closed : call_sites_closed = true.
+Proof. exact call_sites_closed_ok. Qed.
+Print Assumptions C05_call_sites_closed.
+
+(* every site carries a receiver class its receiver text admits; built-in refs are created in get_global_module only and
+   requested at the @use and the @forward site only *)
+Theorem C05_call_site_classes : forallb class_admissible reviewed_call_sites = true
+  /\ sources = [("output/transform.rs", ("handle_item", ("get_global_module", ("", 1))));
+                ("output/transform.rs", ("handle_item", ("get_global_module", ("", 2))));
+                ("sass/functions/mod.rs", ("get_global_module", ("ScopeRef::Builtin", ("value", 1))))]%string.
+Proof. split; [exact classes_admissible|exact sources_are]. Qed.
+Print Assumptions C05_call_site_classes.
+
+(* PARTIAL: for EVERY sequence of the modelled evaluator operations (new_global, sub, writes to the current scope, plain /
+   module-qualified / !global assignment, @use and @forward of built-in and file modules with every `as` form, show/hide
+   and `with`, load-css), from every state whose parents and forward slots are dynamic (in particular the empty one), no
+   Scope method writes to a built-in module scope, and the invariant is kept.  Outside: that the Rust evaluator hands only
+   handles obtained from new_global / sub to the RCur call sites (data flow of the whole evaluator; reviewed per site). *)
+Theorem C05_builtins_never_written_partial : forall ops st, inv st ->
+  inv (fst (ScopeIsolation.run ops st)) /\ Forall (fun r => is_dyn r = true) (snd (ScopeIsolation.run ops st)).
+Proof. exact run_ok. Qed.
+Print Assumptions C05_builtins_never_written_partial.
+
+(* the model records a write to a built-in ref when a method is applied to one: the guard is what prevents it *)
+Theorem C05_guard_needed :
+  let st := [mkScope None [("math"%string, B 0)] None false] in
+  snd (ScopeIsolation.step (OSetVariable 0 (Some "math"%string) false) st) = []
+  /\ snd (m_set_variable_plain st (B 0) false) = [B 0]
+  /\ snd (m_do_use st (B 0) (D 0) AsStar true) = [B 0].
+Proof. exact guard_needed. Qed.
+Print Assumptions C05_guard_needed.
 
 Example C05_nonvacuous :
   store_ok nat (fun k => k) (mkStore nat (fun _ => None) (fun _ => false) 0)
